@@ -17,15 +17,18 @@ import (
 // C09 — Close, CloseNow and blocked calls end in bounded time whatever the peer does.
 
 type c09Case struct {
-	Client  bool          `json:"client"`
-	Deflate bool          `json:"deflate"`
-	State   string        `json:"state"`           // idle | reader-blocked | half-read | closeread | writer-blocked | writer-open | ping-pending | write-fails | stream-write-fails
-	Adv     string        `json:"adv"`             // see c09Advs
-	Frame   string        `json:"frame,omitempty"` // for stall: data7 | data16 | data64 | ping | close | cont
-	K       int           `json:"k,omitempty"`     // bytes of the frame sent before stalling
-	Delay   time.Duration `json:"delay,omitempty"`
-	Op      string        `json:"op"`   // Close | CloseNow | closeread-data | Close-badcode | Close-longreason
-	When    string        `json:"when"` // adversary acts "before" or "after" the local close call starts
+	Client  bool   `json:"client"`
+	Deflate bool   `json:"deflate"`
+	State   string `json:"state"`           // idle | reader-blocked | half-read | closeread | writer-blocked | writer-open | ping-pending | write-fails | stream-write-fails
+	Adv     string `json:"adv"`             // see c09Advs
+	Frame   string `json:"frame,omitempty"` // for stall: data7 | data16 | data64 | ping | close | cont
+	K       int    `json:"k,omitempty"`     // bytes of the frame sent before stalling
+	// Front: a complete frame (an unsolicited Pong) travels in the same segment in front of the piece of
+	// the stalled frame: when the library turns to the stalled frame, its first bytes are already buffered
+	Front bool          `json:"front,omitempty"`
+	Delay time.Duration `json:"delay,omitempty"`
+	Op    string        `json:"op"`   // Close | CloseNow | closeread-data | Close-badcode | Close-longreason
+	When  string        `json:"when"` // adversary acts "before" or "after" the local close call starts
 	// AfterOp "write": once the close call is under way (and whatever it waits for is being waited
 	// for), another goroutine calls Write with a context that never ends
 	AfterOp string `json:"after_op,omitempty"`
@@ -197,7 +200,12 @@ func runC09(t fataler, c c09Case) (string, c09Result) {
 			if k > len(b) {
 				k = len(b)
 			}
-			p.sendRaw(b[:k])
+			if c.Front {
+				_, fb, _ := finishMasking([]ref.Frame{{Fin: true, Opcode: ref.OpPong, Payload: []byte("ahead")}}, c.Client)
+				p.sendRaw(append(append([]byte(nil), fb...), b[:k]...))
+			} else {
+				p.sendRaw(b[:k])
+			}
 			res.Withheld = k < len(b)
 		case "flood-frames":
 			e.Go(func() {
@@ -397,7 +405,7 @@ func c09Key(c c09Case) string {
 
 func TestC09(t *testing.T) {
 	rec := evid.For("C09")
-	rec.Rule = "enumerated matrix in virtual time: local state {idle, reader blocked, message half read, CloseRead active, writer blocked on a zero window, Writer open mid-message, Ping pending} [+ a Write / a streamed message started after the adversary acted] [+ a Ping whose frame is stuck in the transport while the peer already sends its Pong twice] [+ CloseRead called after the peer's Close frame has already closed the connection] [+ a Write with an endless context arriving while the close call is under way] [+ a peer that takes just what a blocked Write still has to send and then nothing again] x scripted adversary {gone (transport closed: writes fail), present but taking nothing (zero window), silent but reading, never reading, stall after k bytes of a frame for EVERY k (7/16/64-bit data frames, Ping, Close, non-final fragment), endless data frames, one endless payload, half-close, echo after 0/1/4.9/5.1/20 s, protocol violation} acting before or after the call x role x {Close, CloseNow, CloseRead + incoming data message, Close with an unsendable code, Close with a 124-byte reason}; then rapid-drawn combinations. Bounds asserted on the fake clock: Close <= 11 s, CloseNow <= 1 s, blocked calls and the CloseRead context <= 1 s after the library closed the transport. Non-trivial: the adversary withheld something the library was waiting for. distinct = (role, state, adversary, frame kind, k class, delay, op, timing)."
+	rec.Rule = "enumerated matrix in virtual time: local state {idle, reader blocked, message half read, CloseRead active, writer blocked on a zero window, Writer open mid-message, Ping pending} [+ a Write / a streamed message started after the adversary acted] [+ a Ping whose frame is stuck in the transport while the peer already sends its Pong twice] [+ CloseRead called after the peer's Close frame has already closed the connection] [+ a Write with an endless context arriving while the close call is under way] [+ a peer that takes just what a blocked Write still has to send and then nothing again] x scripted adversary {gone (transport closed: writes fail), present but taking nothing (zero window), silent but reading, never reading, stall after k bytes of a frame for EVERY k (7/16/64-bit data frames, Ping, Close, non-final fragment; also with a complete Pong in the same segment in front of the piece), endless data frames, one endless payload, half-close, echo after 0/1/4.9/5.1/20 s, protocol violation} acting before or after the call x role x {Close, CloseNow, CloseRead + incoming data message, Close with an unsendable code, Close with a 124-byte reason}; then rapid-drawn combinations. Bounds asserted on the fake clock: Close <= 11 s, CloseNow <= 1 s, blocked calls and the CloseRead context <= 1 s after the library closed the transport. Non-trivial: the adversary withheld something the library was waiting for. distinct = (role, state, adversary, frame kind, k class, delay, op, timing)."
 	var rc c09Case
 	if replayCase(t, &rc) {
 		var msg string
@@ -453,6 +461,9 @@ func TestC09(t *testing.T) {
 								}
 								for _, k := range ks {
 									one(c09Case{Client: client, State: st, Adv: adv, Frame: fr, K: k, Op: op, When: when})
+									if k <= 3 || k == 5 || k == n-1 {
+										one(c09Case{Client: client, State: st, Adv: adv, Frame: fr, K: k, Front: true, Op: op, When: when})
+									}
 								}
 							}
 						case "echo-delay":
@@ -559,6 +570,7 @@ func TestC09Mixed(t *testing.T) {
 		case "stall":
 			c.Frame = rapid.SampledFrom(c09StallFrames).Draw(rt, "frame")
 			c.K = rapid.IntRange(1, len(c09StallBytes(c.Frame, c.Client))).Draw(rt, "k")
+			c.Front = rapid.Bool().Draw(rt, "frameInFront")
 		case "echo-delay":
 			c.Delay = time.Duration(rapid.IntRange(0, 21000).Draw(rt, "delayMs")) * time.Millisecond
 		case "flood-frames", "flood-payload", "flood-fragments":
